@@ -20,15 +20,36 @@ demo = meta["demo"]
 _m = re.search(r"(go (?:test|run)\b[^&;|]*)", demo)
 if _m:
     demo = _m.group(1).strip()
-    demo = re.split(r"\s{2,}|\s\(", demo)[0].strip()
+    demo = re.split(r"\s{2,}|\s\(", demo)[0].strip().rstrip("'\"`")
 if "./server/" in demo and "server/commitlog" not in demo and "server/protocol" not in demo and "server/encryption" not in demo:
     demo = "unshare -n sh -c 'ip link set lo up && %s'" % demo.replace("'", '"')
 res = {"mutant": name, "property": prop, "summary": meta.get("summary"), "needs": meta.get("needs"), "demo": demo}
-# place demo files
-m = re.search(r"(\./[\w/\.]+)\s*/?\s*$", demo.strip()) or re.search(r"(\./server[\w/]*)", demo)
-pkg = m.group(1).rstrip("/") if m else "./server"
-demos = [f for f in os.listdir(out) if f.endswith("_test.go") or (f.endswith(".go") and f not in ())]
+# place demo files: prefer the per-file first-line comment "Place in <dir>" + "-run <name>"
+demos = [f for f in os.listdir(out) if f.endswith(".go")]
+placed = []   # (file, pkgdir)
+cmds = []
+perfile = True
 for f in demos:
+    first = open(os.path.join(out, f)).readline()
+    mp = re.search(r"[Pp]lace (?:this file )?in\s+`?(?:<tree>/)?\.?/?([\w/]+?)/?`?[\s(,:]", first)
+    mr = re.search(r"-run\s+'?\"?([\w^$|.*()]+)", first)
+    if not (mp and mr):
+        perfile = False
+        break
+    d = mp.group(1)
+    placed.append((f, "./" + d))
+    c = "go test -vet=off -count=1 -timeout 8m -run '%s' ./%s/" % (mr.group(1), d)
+    if d == "server":
+        c = "unshare -n sh -c \"ip link set lo up && %s\"" % c
+    cmds.append(c)
+if perfile and demos:
+    demo = " && ".join(cmds)
+    res["demo"] = demo
+else:
+    m = re.search(r"(\./[\w/\.]+)\s*/?\s*$", demo.strip()) or re.search(r"(\./server[\w/]*)", demo)
+    pkg = m.group(1).rstrip("/") if m else "./server"
+    placed = [(f, pkg) for f in demos]
+for f, pkg in placed:
     shutil.copy(os.path.join(out, f), os.path.join(wt, pkg, f))
 rc0, o0 = sh(demo, cwd=wt)
 res["demo_on_unchanged_rc"] = rc0
@@ -42,10 +63,14 @@ rc1, o1 = sh(demo, cwd=wt)
 res["demo_with_change_rc"] = rc1
 res["demo_tail"] = o1[-600:]
 # remove demo files before running the check (they are not part of the change)
-for f in demos:
+for f, pkg in placed:
     os.unlink(os.path.join(wt, pkg, f))
 e2 = dict(env, VERIF_REPO=wt, VERIF_SEED=seed)
-rcc, oc = sh("./check %s --tier %s --no-evidence" % (prop, tier), cwd="/verif", e=e2, timeout=7200)
+if "--demo-only" in sys.argv:
+    prev = json.load(open("/verif/seeded/" + name.replace("out-", "") + "/meta.json"))["confirmed_by_lead"]
+    rcc, oc = prev["check_rc"], "\n".join("fingerprint=" + f for f in prev["check_fingerprints"])
+else:
+    rcc, oc = sh("./check %s --tier %s --no-evidence" % (prop, tier), cwd="/verif", e=e2, timeout=7200)
 res["check_rc"] = rcc
 res["check_fingerprints"] = [l.strip().split(" ")[0].replace("fingerprint=", "") for l in oc.split("\n") if "fingerprint=" in l][:12]
 res["check_tail"] = oc[-700:]
